@@ -131,6 +131,12 @@ theorem cbin_table_ok (n cs : Nat) (hn : 1 ≤ n) (hcs : 0 < cs) :
     mtsTable n cs = some (getChunkBounds [n] cs) ∧ boundsOK [n] cs (getChunkBounds [n] cs) = true :=
   ⟨Lemmas.mtsTable_eq n cs hn hcs, getChunkBounds_ok [n] cs hcs (by simp)⟩
 
+/-- … and the compressed reader's batch iterator, over any chunk table whose bounds are at most `cs` apart
+(more than one bound), never hands out an interval longer than `batch_size` chunk lengths. -/
+theorem iterChunksMts_len_le (bs cs : Nat) (hbs : 0 < bs) (cb : List Nat) (hg : gapsLe cs cb = true)
+    (hlen : 2 ≤ cb.length) : ∀ p ∈ iterChunksMts bs cb, p.2 - p.1 ≤ bs * cs :=
+  Lemmas.iterChunksMts_len_le bs cs hbs cb hg hlen
+
 /-! Non-vacuity: concrete non-trivial inputs meet the hypotheses and exercise several chunks. -/
 example : chunkBounds 20 7 2 = [⟨0,7,0,6⟩, ⟨5,12,6,11⟩, ⟨10,17,11,16⟩, ⟨15,20,16,20⟩] := by decide
 example : kept [10,11,12,13,14,15,16] (chunkBounds 7 3 1) = [10,11,12,13,14,15,16] := by decide
@@ -143,6 +149,8 @@ example : chunkSize (1/16) = 38 ∧ chunkSize (3/16) = 112 ∧ chunkSize (7/200)
 example : (600 : Rat) * (1/16) = (37 : Int) + 1/2 := by decide +kernel
 example : readerChunkBounds [30, 55, 41] (1/16) = some [0, 30, 68, 85, 123, 126] := by decide +kernel
 example : mtsTable 10 4 = some [0, 4, 8, 10] ∧ mtsTable 8 4 = some [0, 4, 8] ∧ mtsTable 0 4 = none := by decide
+example : gapsLe 3 [0,3,6,9,10] = true ∧
+    ((iterChunksMts 2 [0,3,6,9,10]).all fun p => decide (p.2 - p.1 ≤ 2 * 3)) = true := by decide
 example : mtsChunkSize (1/4) 10 = 2 ∧ mtsChunkSize (5/2) 1 = 2 := by decide +kernel
 example : (chunkBounds 7 3 1).map (fun c => (pySlice [10,11,12,13,14,15,16] c.ks c.ke, chunkData [10,11,12,13,14,15,16] c)) =
     [([10,11,12], [10,11,12]), ([13,14], [12,13,14]), ([15,16], [14,15,16])] := by decide
